@@ -1004,9 +1004,12 @@ func (e *env) icmpTap(ev tunnelmesh.FrameEvent) {
 		if key == nil {
 			return
 		}
-		pt, err := key.Decrypt(echo.Data)
-		if err != nil {
-			e.c.Fail("payload-not-sealed:icmp", "the echo request did not open under the key agreed with the ingress: "+err.Error(), nil)
+		// ICMP_ECHO frames take the transits' parallel fast lane and may arrive in
+		// any order: open with the raw AEAD, not with SessionKey.Decrypt (which
+		// refuses counters older than the last one)
+		pt, ok := aeadOpen([]keyRec{{key: key.VerifKeyBytes()}}, echo.Data)
+		if !ok {
+			e.c.Fail("payload-not-sealed:icmp", "an echo request does not open under the key agreed with the ingress", nil)
 			return
 		}
 		e.imu.Lock()
